@@ -24,3 +24,5 @@ out = {"property": prop, "name": name, "kind": "behaviour-preserving refactoring
        "checks_run": checks, "reports": {k: v for k, v in res.items() if v}, "silent": all(not v for v in res.values()) and len(res) == len(checks)}
 json.dump(out, open(os.path.join(dst, "meta.json"), "w"), indent=1)
 print(name, "silent" if out["silent"] else "REPORTED %s" % out["reports"])
+if len(res) != len(checks):
+    print("INCOMPLETE RUN (%d of %d checks reported); tail of output:\n%s" % (len(res), len(checks), r.stdout[-1500:]))
